@@ -5,7 +5,7 @@ CONSTANTS
   SegPagesSet = {1, 2, 3}
   MaxRecs = 2
   CompSet = {TRUE, FALSE}
-  Classes = {"small", "rem", "rem+1", "page+1", "left", "left+1", "seg+1", "nearfull+1"}
+  Classes = {"small", "rem", "rem+1", "page+1", "left", "left+1", "seg+1", "nearfull+1", "huge"}
   AllowCut = TRUE
   EmitMode = "class"
 VIEW View
